@@ -314,7 +314,7 @@ def normalise(repo, finfo, keep=(), helpers=True, aliases=True, comps=True, ifex
     used = []
     fn = finfo.node
     if helpers:
-        fn, used = inline.expand(repo, finfo, keep, pre=_tail_pass)
+        fn, used = inline.expand(repo, finfo, keep, pre=lambda f: bool(_tail_pass(f)) | bool(_allany_pass(f)))
     if fn is finfo.node:
         fn = inline._copy_node(fn)
     _allany_pass(fn)
